@@ -60,7 +60,7 @@ Proof.
 Qed.
 
 Lemma st_eta s : {| bufs := bufs s; curr := curr s; chan := chan s; shl := shl s; wl := wl s; file := file s;
-                    pc := pc s; todo := todo s; done := done s |} = s.
+                    pc := pc s; todo := todo s; done := done s; base := base s |} = s.
 Proof. destruct s; reflexivity. Qed.
 
 Lemma skipn_app_exact {A} (a b : list A) : skipn (length a) (a ++ b) = b.
@@ -71,7 +71,7 @@ Proof.
   intros Hl Ht. unfold lift_p. replace (t <? length (m_thr M)) with true by (symmetry; apply Nat.ltb_lt; exact Ht).
   destruct (Hl (proj t M)) as [[out Hout] [Hs Hw]].
   unfold proj at 1. cbn [m_thr m_chan m_shl m_wl].
-  rewrite nth_upd_same by exact Ht. cbn [thr_of h_bufs h_curr h_pc h_todo h_done h_file].
+  rewrite nth_upd_same by exact Ht. cbn [thr_of h_bufs h_curr h_pc h_todo h_done h_file h_base].
   rewrite sel_app, sel_tagged_same, Hout, skipn_app_exact.
   rewrite <- (st_eta (f (proj t M))). f_equal.
   - rewrite Hout. reflexivity.
@@ -89,7 +89,7 @@ Qed.
 
 (* ------------------------------------------------------------------ recorder steps *)
 Ltac msimp := cbn [m_thr m_chan m_shl m_wl bufs curr chan shl wl file pc todo done with_pc with_bufs with_curr with_chan
-                   with_shl with_wl with_file with_todo with_done h_bufs h_curr h_pc h_todo h_done h_file thr_of fst snd] in *.
+                   with_shl with_wl with_file with_todo with_done with_base base h_bufs h_curr h_pc h_todo h_done h_file h_base thr_of fst snd] in *.
 Lemma sel_remove_same t i l : sel t (remove_first_pair (t, i) l) = remove_first i (sel t l).
 Proof.
   induction l as [|[a b] r IH]; [reflexivity|]. cbn [remove_first_pair fst snd].
